@@ -709,3 +709,8 @@ $ErrorActionPreference = "Stop"
 
     Ok(())
 }
+
+#[cfg(feature = "verif")]
+pub fn verif_make_string_constant(s: &str) -> String {
+    make_string_constant(s)
+}
